@@ -1,6 +1,7 @@
 import XV.Driver.Util
 import XV.Driver.Utf8
 import XV.Driver.Regex
+import XV.Driver.Codec
 import XV.Driver.ContentModel
 import XV.Driver.DtdValid
 open XV.Driver
@@ -14,5 +15,6 @@ def main (args : List String) : IO UInt32 := do
   | ["cm"] => lineLoop stdin stdout XV.Driver.ContentModel.handle; return 0
   | ["cmspec"] => lineLoop stdin stdout XV.Driver.ContentModel.handleSpec; return 0
   | ["dtdspec"] => lineLoop stdin stdout XV.Driver.DtdValid.handle; return 0
+  | ["codec"] => lineLoop stdin stdout XV.Driver.Codec.handle; return 0
   | ["utf8spec"] => lineLoop stdin stdout XV.Driver.Utf8.handleSpec; return 0
   | _ => IO.eprintln "usage: xvdriver <area>"; return 2
